@@ -11,7 +11,8 @@ cd "$WT" || exit 2
 git checkout -q -- . 2>>"$LOG"; git clean -fdq crates 2>>"$LOG"
 T="seeded_demo_$(basename "$D" | tr -c 'a-zA-Z0-9' '_')"
 if [ "$KIND" = test ]; then SUB=tests; else SUB=examples; fi
-mkdir -p "crates/$CRATE/$SUB"; cp "$D/demo.rs" "crates/$CRATE/$SUB/$T.rs"
+if [ "$CRATE" = tests ]; then BASE="tests"; else BASE="crates/$CRATE"; fi
+mkdir -p "$BASE/$SUB"; cp "$D/demo.rs" "$BASE/$SUB/$T.rs"
 run_demo() { if [ "$KIND" = test ]; then cargo test --offline -j 8 -p "$CRATE" --test "$T"; else cargo run --offline -j 8 -p "$CRATE" --example "$T"; fi; }
 git apply "$D/patch.diff" >>"$LOG" 2>&1 || { echo "patch does not apply" >>"$LOG"; echo '{"applies":false}' > "$D/confirm.json"; exit 1; }
 echo "== demo WITH patch" >>"$LOG"; run_demo >>"$LOG" 2>&1; with=$?
@@ -22,7 +23,7 @@ fails=$(grep -E "^\s+FAIL " "$D/suite.log" | grep -v "$T" | sed 's/.*) //' | sor
 summary=$(grep -E "Summary" "$D/suite.log" | tail -1 | sed 's/^ *//')
 git apply -R "$D/patch.diff" >>"$LOG" 2>&1
 echo "== demo WITHOUT patch" >>"$LOG"; run_demo >>"$LOG" 2>&1; without=$?
-rm -f "crates/$CRATE/$SUB/$T.rs"; rmdir "crates/$CRATE/$SUB" 2>/dev/null
+rm -f "$BASE/$SUB/$T.rs"; rmdir "$BASE/$SUB" 2>/dev/null
 git checkout -q -- . 2>>"$LOG"
 printf '{"applies":true,"demo_exit_with_patch":%d,"demo_exit_without_patch":%d,"suite_summary":"%s","suite_failures_with_patch":"%s"}\n' "$with" "$without" "$summary" "$fails" > "$D/confirm.json"
 tail -c 300 "$D/suite.log" > /dev/null; rm -f "$D/suite.log"
